@@ -299,3 +299,37 @@ def dedup_then_project(rng):
     if rng.random() < 0.12:
         p = ("un", ("dedup",), mp.DEFAULT, p)
     return p
+
+
+def sorted_then_sequences(full):
+    """Deterministic: a sort by a column, then every sequence of up to three (with ``full``: four) operations drawn from two
+    nested projections (the first drops the sort column), deduplication, slice, calculation and selection — plus the
+    four-operation sequences holding projection, deduplication, smaller projection in that order."""
+    import itertools
+    a, b, c, n1 = K(1), K(2), K(3), N(1)
+    ops = {"P2": ("proj", [a, b]), "P1": ("proj", [a]), "D": ("dedup",), "S": ("slice", 0, 2),
+           "C": ("calc", n1, ("add", ("ref", a), ("lit", 1))), "F": ("sel", ("cmp", "ge", ("ref", a), ("lit", 0)))}
+
+    def has_sub(seq, sub):
+        it = iter(seq)
+        return all(x in it for x in sub)
+    seqs = [q for k in (1, 2, 3) for q in itertools.product(ops, repeat=k)]
+    seqs += [q for q in itertools.product(ops, repeat=4) if full or has_sub(q, ("P2", "D", "P1"))]
+    leaf = ("leaf", 1, SQL, [a, b, c], [{a: 1, b: 2, c: 3}, {a: 1, b: 2, c: 1}, {a: 0, b: 5, c: 2}], (0, None))
+    out = []
+    for i, q in enumerate(seqs):
+        terms = [(("ref", c), False)] if i % 2 == 0 else [(("ref", c), False), (("ref", a), True)]
+        p, cur, ok = ("un", ("sort", terms), mp.DEFAULT, leaf), {a, b, c}, True
+        for o in q:
+            if o in ("P2", "P1"):
+                ok &= set(ops[o][1]) <= cur
+                cur = set(ops[o][1])
+            elif o == "C":
+                ok &= a in cur and n1 not in cur
+                cur = cur | {n1}
+            elif o == "F":
+                ok &= a in cur
+            p = ("un", ops[o], mp.DEFAULT, p)
+        if ok:
+            out.append(p)
+    return out
